@@ -130,9 +130,11 @@ class Plan:
 
 def apply_mutation(mut, host, rq, reply):
     """reply mutations as data, applied to replies of the op they are attached to.
-    mut: {"api": name|None, "kind": "replace", "payload": bytes} | {"kind": "set_i32", "at": pos, "value": v} |
+    mut: {"api": name|None, "host": host|None (only replies of that broker), "kind": "replace", "payload": bytes} | {"kind": "set_i32", "at": pos, "value": v} |
          {"kind": "truncate", "at": n} | {"kind": "flip", "bit": i} | {"kind": "body", "body": dict} (re-encode)"""
     if mut.get("api") is not None and rq["api"] != mut["api"]:
+        return reply
+    if mut.get("host") is not None and host != mut["host"]:
         return reply
     k = mut["kind"]
     if k == "replace":
